@@ -15,6 +15,9 @@ import PyamgV.Proofs.ExtC05YEx
 import PyamgV.Proofs.ExtC05YRefine
 import PyamgV.Proofs.ExtC05YBlock
 import PyamgV.Proofs.ExtC05ZEx
+import PyamgV.Proofs.ExtC05ZBlkEx
+import PyamgV.Proofs.ExtC05ZC
+import PyamgV.Proofs.ExtC05ZY
 
 /-! # C05 — a solver that reports symmetric smoothing yields a Hermitian preconditioner
 
@@ -30,7 +33,9 @@ Models (both run by the driver against the working tree on every check):
 Theorems: flag `True` ⇒ the per-level test holds for the pair installed on **every** level ⇒ (for
 the smoothers of the cycle model) the installed post-smoother is the adjoint of the pre-smoother ⇒
 the V- and W-cycle operators are symmetric; a symmetric non-expansive (strictly contracting) cycle
-gives a positive semidefinite (definite) preconditioner. Real symmetric case (ordered fields). -/
+gives a positive semidefinite (definite) preconditioner. Real symmetric case (ordered fields).
+Extension E47 (section "E47"): for the EXECUTED matrix `denseM`, flag `True` and the two proved Booleans `c05Check`,
+`c05SpdCheck` evaluated on the concrete hierarchy ⇒ `denseM` is symmetric positive definite (`flag_denseM_spd_checked`). -/
 namespace PyamgV.Props.C05
 open PyamgV PyamgV.C05
 
@@ -474,7 +479,8 @@ restate flag_cycle_spd_example_nonzero := PyamgV.C05YEx.example_energy_ne
 hierarchy of the check): the finest matrix is positive definite by an exact `Uᵀ D U` certificate (`pdB`: the factors come from
 an untrusted elimination, the Boolean compares `B = Uᵀ D U` entry by entry), has a positive diagonal and is inverted by the
 model's elimination; the finest pre- or post-smoother has strict parameters and every installed smoother non-expansive ones
-(Gauss–Seidel / SOR: `0 < ω < 2` resp. `0 ≤ ω ≤ 2`; damped Jacobi: `0 < ω` and the certificate `jacB` of `2 D − ω A`); every
+(Gauss–Seidel / SOR: `0 < ω < 2` resp. `0 ≤ ω ≤ 2`; damped Jacobi: `0 < ω` and the certificate `jacB` of `2 D − ω A`; cf / fc
+Jacobi: the same test, strict when every iteration count is at least one); every
 coarse matrix, the coarsest included, is the Galerkin product of the dense copies and is inverted by the elimination. -/
 
 /-- soundness of the `Uᵀ D U` certificate: positive `d_k`, unit upper triangular `U`, `B = Uᵀ D U` ⇒ `zᵀ B z > 0` for
@@ -498,6 +504,14 @@ restate inverse_check_sound := PyamgV.C05Z.invB_sound
 /-- the parameter tests give `NonExpSm` / `StrictSm` of `smoother_nonexp` / `smoother_strict` -/
 restate nonexp_check_sound := PyamgV.C05Z.nonExpB_sound
 restate strict_check_sound := PyamgV.C05Z.strictB_sound
+/-- **damped Jacobi over a subset of the rows (the C- or F-points of cf / fc Jacobi) is non-expansive under `ω A < 2 D`** -/
+restate jacobi_indexed_nonexp := PyamgV.C05Z.jacIdx_nonexp
+/-- the smoothers of the cycle model with `NonExpSmZ` parameters (`NonExpSm` plus cf / fc Jacobi) are non-expansive -/
+restate smoother_nonexp_cf := PyamgV.C05Z.smFn_nonexpZ
+/-- one pass of cf / fc Jacobi (each part at least once, C and F together all rows) strictly reduces every error of non-zero energy -/
+restate cf_pass_strict := PyamgV.C05Z.cfPass_strict
+/-- the smoothers with `StrictSmZ` parameters (`StrictSm` plus cf / fc Jacobi with all counts ≥ 1) are strict -/
+restate smoother_strict_cf := PyamgV.C05Z.smFn_strictZ
 /-- soundness of the per-level part of the checker -/
 restate spd_levels_sound := PyamgV.C05Z.spdH_of_B
 /-- the model hierarchy is a hierarchy as the constructors build it (`WFG` of C02: `R` adjoint to `P`, Galerkin,
@@ -521,8 +535,69 @@ restate spd_check_example := PyamgV.C05ZEx.example_denseM_spd
 /-- … the same with damped Jacobi (`ω = 1`) before and after: the certificate of `2 D − A` passes; … -/
 restate spd_check_example_jacobi_cert := PyamgV.C05ZEx.jacB1
 restate spd_check_example_jacobi := PyamgV.C05ZEx.example_denseM_spd_jacobi
+/-- cf / fc Jacobi pass the non-expansiveness test there, are strict iff every iteration count is at least one, and the
+executed cycle with `cf_jacobi` before / `fc_jacobi` after is symmetric positive definite -/
+restate spd_check_example_cf := PyamgV.C05ZEx.cf_nonexp_example
+restate spd_check_example_cf_cycle := PyamgV.C05ZEx.example_denseM_spd_cf
 /-- … and the checker rejects `ω = 2` and a non-Galerkin coarse matrix -/
 restate spd_check_example_rejects := PyamgV.C05ZEx.spd_rejects
+
+/-! ### E47 -- the executed block smoothers, every hypothesis a proved Boolean (Proofs/ExtC05ZBlk*.lean)
+
+`C05ZB.blkSmCheck A bs` (import-free, driver op `ext_c05z_blk`, evaluated for every level of the extended cycle part that
+carries a block smoother with block size > 1): `A.tobsr(bs)` and `blockDinv` succeed, `Dinv_i B_ii = I` for the dense
+diagonal blocks, symmetric inverse blocks, sizes, in-range block columns. -/
+
+/-- `leftInvB = true → Dinv_i B_ii = I` on every block row (`LeftInv` of `executed_bgs_smoother`) -/
+restate block_leftinv_check_sound := PyamgV.C05ZB.leftInv_of_B
+/-- `dinvSymB = true → DinvSym` -/
+restate block_dinvsym_check_sound := PyamgV.C05ZB.dinvSym_of_B
+/-- **`tobsr` preserves the operator**: `A.toBsr bs = some B → bsrLin B = csrLin A` -/
+restate bsrLin_toBsr := PyamgV.C05ZB.bsrLin_toBsr
+/-- the CSR operator of the block / polynomial theorems is the CSR operator `csrOp` of the symmetry theorems and of `c05Check` -/
+restate csrLin_eq_csrOp := PyamgV.C05ZB.csrLin_eq_csrOp
+/-- symmetry of that operator from the dense test the driver evaluates -/
+restate csrLin_sym_of_dense := PyamgV.C05ZB.csrLin_sym_of_dense
+/-- **the executed `block_gauss_seidel` of the extended cycle model (`applySmY`), `blkSmCheck = true`**: returns and is
+`x + powM A (sweepM A (dirL sweep steps)) k (b − A x)` for the CSR operator `A` -/
+restate executed_bgs_smoother_checked := PyamgV.C05ZB.executed_bgs_smoother_checked
+/-- … the executed `block_jacobi`: `x + powM A (ω D⁻¹) k (b − A x)` -/
+restate executed_bjac_smoother_checked := PyamgV.C05ZB.executed_bjac_smoother_checked
+/-- **checked: forward / backward executed block Gauss–Seidel are an adjoint pair, symmetric sweeps self-adjoint** -/
+restate executed_bgs_pair_checked := PyamgV.C05ZB.executed_bgs_pair_checked
+/-- … and the executed block Jacobi operator is self-adjoint -/
+restate executed_bjac_selfadj_checked := PyamgV.C05ZB.executed_bjac_selfadj_checked
+/-- non-vacuity (kernel evaluation): the checker is `true` on the 4-point Poisson matrix with block size 2, … -/
+restate block_check_example_true := PyamgV.C05ZBEx.blk4
+/-- … where the executed forward / backward sweeps are an adjoint pair with no hypothesis left; … -/
+restate block_check_example_pair := PyamgV.C05ZBEx.example_bgs_pair
+/-- … a singular diagonal block and a block size that does not divide `n` are rejected -/
+restate block_check_example_rejects := PyamgV.C05ZBEx.blk_rejects
+
+/-! ### E47 -- the extended executed model `denseMY` on hierarchies whose smoothers are those of the first model -/
+
+/-- `denseMY` over base smoothers (`toBaseH Ls = some Ls'`) is `denseM` of the projected hierarchy -/
+restate denseMY_is_denseM_on_base := PyamgV.C05Z.denseMY_base
+/-- the recursion `solveLvlY` over base smoothers is `solveLvl` -/
+restate solveLvlY_is_solveLvl_on_base := PyamgV.C05Z.solveLvlY_base
+/-- **flag `True`, `c05Check` and `c05SpdCheck` true on the projected hierarchy ⇒ the matrix `denseMY` the driver computes is
+symmetric positive definite** -/
+restate flag_denseMY_spd_checked := PyamgV.C05Z.flag_denseMY_spd_checked
+/-- the instance the driver runs (`ext_c05y_cyc r`, `ext_c05z_spdy r`) -/
+restate flag_denseMY_spd_checked_rat := PyamgV.C05Z.flag_denseMY_spd_checked_rat
+/-- non-vacuity: the 3-point Poisson hierarchy as a hierarchy of the extended model -/
+restate denseMY_spd_example := PyamgV.C05ZEx.example_denseMY_spd
+
+/-! ### E47, complex data -- an exact certificate for the executed complex model matrix
+
+No definiteness theorem from the smoother parameters exists for Gaussian-rational hierarchies (the energy theory is over
+ordered fields).  The driver decides exactly whether the matrix `denseM CRat.ofRat …` it computed is Hermitian positive
+definite (`isHPD CRat.conj posC`, op `ext_c05z_spd c`); the certificate is sound: -/
+
+/-- the matrix of the C16 development read off a matrix of the cycle model is `mget` -/
+restate complex_toMat_mget := PyamgV.C05Z.toMat_mget
+/-- **`isHPD CRat.conj posC M n = true` ⇒ `M` is Hermitian and `Re (xᴴ M x) > 0` for every `x ≠ 0`** -/
+restate complex_model_hpd_certificate := PyamgV.C05Z.hpd_certificate_complex
 
 /-! ## E31 -- `_same_parameters` and the flag computation, translated from the source (`harness/py2lean.py`)
 
